@@ -127,6 +127,7 @@ static Node *expr(Token **rest, Token *tok);
 static int64_t eval(Node *node);
 static int64_t eval2(Node *node, char ***label);
 static int64_t eval_rval(Node *node, char ***label);
+static bool eval_truth(Node *node);
 static bool is_const_expr(Node *node);
 static Node *assign(Token **rest, Token *tok);
 static Node *logor(Token **rest, Token *tok);
@@ -1503,7 +1504,7 @@ write_gvar_data(Relocation *cur, Initializer *init, Type *ty, char *buf, int off
 
         char *loc = buf + offset + mem->offset;
         uint64_t oldval = read_buf(loc, mem->ty->size);
-        uint64_t newval = eval(expr);
+        uint64_t newval = mem->ty->kind == TY_BOOL ? eval_truth(expr) : eval(expr);
         uint64_t mask = mem->bit_width == 64 ? -1 : (1L << mem->bit_width) - 1;
         uint64_t combined = oldval | ((newval & mask) << mem->bit_offset);
         write_buf(loc, combined, mem->ty->size);
@@ -1539,6 +1540,13 @@ write_gvar_data(Relocation *cur, Initializer *init, Type *ty, char *buf, int off
 
   if (ty->kind == TY_LDOUBLE) {
     *(long double *)(buf + offset) = eval_double(init->expr);
+    return cur;
+  }
+
+  // A conversion to _Bool yields 1 for every nonzero value; storing
+  // the low byte of the value would turn 256 into 0.
+  if (ty->kind == TY_BOOL) {
+    buf[offset] = eval_truth(init->expr);
     return cur;
   }
 
